@@ -205,7 +205,12 @@ void add_type(Node *node) {
     usual_arith_conv(&node->lhs, &node->rhs);
     node->ty = node->lhs->ty;
     return;
-  case ND_NEG: {
+  case ND_NEG:
+  case ND_BITNOT:
+  case ND_SHL:
+  case ND_SHR: {
+    // The integer promotions are performed on the (left) operand;
+    // the type of the result is that of the promoted operand.
     Type *ty = get_common_type(ty_int, node->lhs->ty);
     node->lhs = new_cast(node->lhs, ty);
     node->ty = ty;
@@ -232,11 +237,6 @@ void add_type(Node *node) {
   case ND_LOGOR:
   case ND_LOGAND:
     node->ty = ty_int;
-    return;
-  case ND_BITNOT:
-  case ND_SHL:
-  case ND_SHR:
-    node->ty = node->lhs->ty;
     return;
   case ND_VAR:
   case ND_VLA_PTR:
